@@ -38,6 +38,37 @@ TRUSTED = ["tagging tuner + journal in studio_driver.py; pass-through spy on the
            "harness-side re-statement of the category of an id (split('/')[0]; regex of the S3 id template)"]
 
 CATS = ["A", "AB", "A_B", "B"]
+# The ways a tuner fails for a category, and the exception each of them ends in: (class name, arguments) - an
+# independent re-statement of studio_driver.fail_tuning.  All Exception subclasses (BaseException is out of scope).
+FAIL_SHAPES = {
+    "msg": lambda c: ("TunerError", ("cannot tune %s" % c,)),                  # one text argument
+    "assert": lambda c: ("AssertionError", ()),                                 # bare assert
+    "notimpl": lambda c: ("NotImplementedError", ()),                           # raise <class>
+    "stopiter": lambda c: ("StopIteration", ()),                                # next() of an empty generator
+    "keyerror0": lambda c: ("KeyError", ()),
+    "bare": lambda c: ("BareTunerError", ()),                                   # custom class, super().__init__() bare
+    "lookup": lambda c: ("KeyError", (c,)),                                     # {}[category]
+    "two": lambda c: ("TunerError", ("cannot tune", c)),
+    "three": lambda c: ("ValueError", (c, 2, None)),
+    "oserror": lambda c: ("FileNotFoundError", (2, "No such tuning")),          # OSError(2, text, filename)
+    "int": lambda c: ("TunerError", (42,)),
+    "none": lambda c: ("TunerError", (None,)),
+    "tuple": lambda c: ("TunerError", ((c, 1),)),
+    "bytes": lambda c: ("TunerError", (b"cannot tune",)),
+    "dict": lambda c: ("TunerError", ({"category": c},)),
+    "emptystr": lambda c: ("TunerError", ("",)),
+    "unicode": lambda c: ("TunerError", (u"caf\u00e9 \u2713 %s" % c,)),
+    "braces": lambda c: ("TunerError", ("{} {0} {category} %s" % c,)),
+    "nested": lambda c: ("TunerError", (KeyError(c),)),
+}
+NO_ARGS = ["assert", "notimpl", "stopiter", "keyerror0", "bare"]
+SHAPE_NAMES = sorted(FAIL_SHAPES)
+
+
+def expected_error(case, c):
+    """canonical text of the exception the tuner of the failing category c ends in"""
+    name, args = FAIL_SHAPES[(case.get("fail_shape") or {}).get(c, "msg")](c)
+    return "%s%s" % (name, ascii(tuple(args)))
 BEHS = ["ok", "ok", "ok", "diff", "player_raises", "extractor_raises", "comparator_raises"]
 DAY0 = 20200227
 
@@ -254,7 +285,52 @@ def generate(rng, tier):
     # (b) the small region limit x category size x seed, always (also in the quick tier)
     for kind in ("mem", "file", "s3"):
         cases += random_sample_cases(rng, kind, tier)
+    # ---- the exception a failing tuner ends in.  Also drawn after everything else.
+    # (a) a share of the requests above with failing tuners: each failing category fails in a way of its own
+    for c in cases:
+        if c.get("fail") and rng.random() < 0.4:
+            c["fail_shape"] = {f: rng.choice(SHAPE_NAMES) for f in c["fail"]}
+    # (b) the small region exception shape x request mode x cassette, always (also in the quick tier)
+    for kind in ("mem", "file", "s3"):
+        cases += fail_shape_cases(rng, kind, tier)
     return cases
+
+
+def fail_shape_cases(rng, kind, tier):
+    """Every way a tuner can fail (exception without arguments / with one text / several / non-text arguments, raised
+    as a class, by an assert, by next(), by a lookup, a custom class) on an explicit and a lookup-driven request over
+    three or four categories of which one in the middle (and, second round, two with different shapes) fails: the
+    failing category's result is that exception, the other categories replay."""
+    out = []
+    recs = gen_store(rng, kind, 8)
+    for r in recs:
+        r.pop("incomplete", None)
+    present = sorted({r["cat"] for r in recs})
+    for shape in SHAPE_NAMES:
+        if tier == "quick" and kind != "mem" and shape not in NO_ARGS + ["msg", "two", "int"]:
+            continue
+        for mode in ("explicit", "lookup"):
+            victim = present[1 + rng.randrange(len(present) - 2)] if len(present) > 2 else present[-1]
+            fail, shapes = [victim], {victim: shape}
+            if rng.random() < 0.35:
+                other = rng.choice([c for c in present if c != victim])
+                fail, shapes = sorted([victim, other]), {victim: shape, other: rng.choice(SHAPE_NAMES)}
+            if mode == "explicit":
+                case = explicit_case(rng, kind, recs, fail=fail)
+                # every category at least once (so that the failing tuner is asked), a few more, in any order
+                ids = [rng.choice([i for i, r in enumerate(recs) if r["cat"] == c]) for c in present]
+                ids += [rng.randrange(len(recs)) for _ in range(3)]
+                rng.shuffle(ids)
+                case["ids"] = ids
+                case.pop("lp", None)
+            else:
+                case = lookup_case(rng, kind, recs, fail=fail)
+                case["categories"] = rng.sample(present, len(present)) + rng.choice([[], ["C"]])
+                case["lp"] = dict(limit=None, skip_incomplete=True)
+            case["fail_shape"] = shapes
+            case["config"] = rng.choice([None, "default", "keep"])
+            out.append(case)
+    return out
 
 
 def generate_main(rng, tier):
@@ -404,7 +480,7 @@ def g_cmp(c, store):
 
 def g_result(r, store):
     if "error" in r:
-        return "(CatError %s)" % gstr(r["error"])
+        return "(CatError %s)" % gstr(r["error"] if r.get("same", True) else "NOT-THE-RAISED-OBJECT:" + r["error"])
     if "junk" in r or "died" in r:
         return "(CatError %s)" % gstr("JUNK:" + str(r.get("junk", r.get("died"))))
     return "(CatRun %s)" % glist([g_cmp(c, store) for c in r["cmps"]])
@@ -434,7 +510,7 @@ def to_gallina(case, obs):
         ids = []
     cats = case.get("categories")
     return "Case %s %s %s %s %s %s %s %s %s" % (
-        gbool(case["cassette"] == "s3"), glist(behs), glist([gstr(c) for c in case.get("fail", [])]),
+        gbool(case["cassette"] == "s3"), glist(behs), glist([gpair(gstr(c), gstr(expected_error(case, c))) for c in case.get("fail", [])]),
         glist([gpair(gstr(c), glist([gstr(i) for i in l])) for c, l in lookups]),
         gbool("keep" in str(case.get("config")).split(":")),
         gopt(None if ids is None else glist([gstr(i) for i in ids])),
@@ -473,7 +549,8 @@ def check_play(case, obs, o, which):
             return fails                                   # nothing selected at all: TypeError is the code's answer
         if ids is not None and any(spec_category(kind, i) is None for i in ids):
             return fails                                   # an id the cassette cannot attribute to any category
-        bad("play-raises", "play() raised %s" % o["raised"])
+        bad("play-raises", "play() raised %s%s" % (o["raised"], "".join(
+            "; tuner of %s fails with %s" % (c, expected_error(case, c)) for c in case.get("fail", []))))
         return fails
     cats = o["cats"]
     results = dict(zip(cats, o["results"]))
@@ -502,8 +579,12 @@ def check_play(case, obs, o, which):
     for c in cats:
         r = results[c]
         if c in fail:
-            if r.get("error") != "TunerError(cannot tune %s)" % c:
-                bad("tuner-error-lost", "tuner of %s fails but its result is %s" % (c, str(r)[:200]))
+            if r.get("error") != expected_error(case, c):
+                bad("tuner-error-lost", "tuner of %s fails with %s but its result is %s" %
+                    (c, expected_error(case, c), str(r)[:200]))
+            elif not r.get("same"):
+                bad("tuner-error-lost", "tuner of %s fails; its result is an equal-looking %s but not the exception "
+                    "the tuner raised" % (c, r["error"]))
         elif "error" in r:
             bad("tuner-error-leaked", "tuner of %s works but its result is %s" % (c, r))
     # ---- every comparison: label of exactly this category, everything it carries is this category's tuning
@@ -647,6 +728,12 @@ def features(case):
          "config=%s" % case.get("config")}
     if str(case.get("config")).startswith("dedicated"):
         f.add("real-dedicated-processes")
+    for c in case.get("fail", []):
+        shape = (case.get("fail_shape") or {}).get(c, "msg")
+        name, args = FAIL_SHAPES[shape](c)
+        f.add("tuner-fails-with=" + shape)
+        f.add("tuner-error-args=%s" % ("none" if not args else "one-text" if len(args) == 1 and isinstance(args[0], str)
+                                       else "one-non-text" if len(args) == 1 else "several"))
     if case.get("close"):
         f.add("generator-closed-early")
     if "close" in case:
